@@ -33,6 +33,18 @@ func TestCancelDuringDispatch(t *testing.T) {
 	})
 }
 
+var collRunning = vkit.NewCollector("C06", "TestCancelWhileRunning", "synctest bubble, fake clock: 1-8 publishes (gaps 0-5 ms) to 1-4 Async handlers (two thirds Async+Sequential, so deliveries queue behind a backlog; plain/context-aware) that work for 1-40 ms, each publish with a cancellable context (one shared context or one per publish) which a canceller goroutine cancels 0-60 ms after the first publish - before the work, while handlers run, or after it; then, 0-30 ms after the last publish, Wait or Shutdown(background) over a store that counts Close. A cancelled context may stop a delivery from starting; oracle: when Wait/Shutdown returns no invocation is inside its body and none starts afterwards (counters on the fake clock, no timing), Close happens once and not while a handler runs, nothing runs twice, started == finished. Non-trivial = the cancel arrived while >=1 handler was running.")
+
+func TestCancelWhileRunning(t *testing.T) {
+	rapid.Check(t, func(rt *rapid.T) {
+		c := GenRunning(rt)
+		if v := collRunning.Account(c, RunRunning(t, c)); v != nil {
+			vkit.SaveFail("C06", "TestCancelWhileRunning", c, v)
+			rt.Fatalf("%s", v.Error())
+		}
+	})
+}
+
 var collRace = vkit.NewCollector("C06", "TestWaitRace", "free-running stress on real goroutines (race detector on): 200-600 rounds per case in which a quick Async handler signals that it is about to return and spins for a varying time, the publisher publishes a second event as soon as it sees the signal and calls Wait (mode publish), or calls Wait after a varying spin of its own with no further publish (mode last), or publishes to a trivial handler and calls Wait after a varying distance with no handshake (mode free); oracle = every invocation finished when Wait returns, and Wait returns: a Wait still blocked 40 s after every invocation has finished, with nothing moving, is a hang. Non-trivial = >=2 rounds.")
 
 var collTrickle = vkit.NewCollector("C06", "TestWaitTrickle", "free-running volume stress on real goroutines (no race detector): 100-300 rounds per case in which 5-40 events are published with small varying gaps to 1-16 Async handlers (three quarters of the cases with Sequential), then Wait; oracle = every delivery has run when Wait returns, and Wait returns (stall oracle as in TestWaitRace). Non-trivial = >=2 rounds.")
@@ -44,5 +56,5 @@ func TestWaitRace(t *testing.T) { vkit.Check(t, collRace, GenRace, RunRace) }
 func TestReplay(t *testing.T) {
 	r := vkit.NeedReplay(t)
 	_ = vkit.ReplayCase(t, r, coll, func(c *Case) *vkit.Outcome { return Run(t, c) }) ||
-		vkit.ReplayCase(t, r, collRace, RunRace) || vkit.ReplayCase(t, r, collTrickle, RunRace) || vkit.ReplayCase(t, r, collCancel, func(c *CancelCase) *vkit.Outcome { return RunCancel(t, c) })
+		vkit.ReplayCase(t, r, collRace, RunRace) || vkit.ReplayCase(t, r, collTrickle, RunRace) || vkit.ReplayCase(t, r, collCancel, func(c *CancelCase) *vkit.Outcome { return RunCancel(t, c) }) || vkit.ReplayCase(t, r, collRunning, func(c *RunningCase) *vkit.Outcome { return RunRunning(t, c) })
 }
